@@ -482,8 +482,93 @@ def rule_wfall(ctx) -> None:
               wit[0][0] if wit else "", ctx.path_witness(fn, [x for x, _ in wit[0][1]]) if wit else None)
 
 
+def _name_suffixes(e: ast.AST) -> Optional[Tuple[str, Set[str]]]:
+    """`os.path.join(d, f"{stem}<c>" [+ ("<x>" if .. else "")])` -> (stem expression text, set of constant suffixes)"""
+    if not (isinstance(e, ast.Call) and (dotted(e.func) or "").endswith("path.join") and len(e.args) == 2):
+        return None
+    nm = e.args[1]
+    tails = [""]
+    if isinstance(nm, ast.BinOp) and isinstance(nm.op, ast.Add):
+        r = nm.right
+        if isinstance(r, ast.IfExp) and isinstance(r.body, ast.Constant) and isinstance(r.orelse, ast.Constant):
+            tails = [str(r.body.value), str(r.orelse.value)]
+        elif isinstance(r, ast.Constant):
+            tails = [str(r.value)]
+        else:
+            return None
+        nm = nm.left
+    if not isinstance(nm, ast.JoinedStr) or not nm.values:
+        return None
+    head = nm.values[:-1]
+    last = nm.values[-1]
+    const = str(last.value) if isinstance(last, ast.Constant) else ""
+    if not isinstance(last, ast.Constant):
+        head = nm.values
+    stem = "".join(src(v.value) if isinstance(v, ast.FormattedValue) else str(v.value) for v in head)
+    return stem, {const + t for t in tails}
+
+
+def rule_locator(ctx) -> None:
+    """the baseline / sibling locator resolves a stem to exactly the file names the writer produces - never to a prefix
+    match or a directory listing (a `.meta` sidecar or a leftover temp next to a missing body would become 'the baseline')"""
+    fn = ctx.func(SNAP + ":_find_snapshot_file")
+    cfg = ctx.cfg(fn)
+    rd = ctx.rd(fn)
+    found: Set[str] = set()
+    bad: List[Tuple[ast.AST, str]] = []
+    n_ret = 0
+    for n in cfg.nodes:
+        if n.kind != "stmt" or not isinstance(n.ast, ast.Return) or n not in cfg.reachable_from_entry():
+            continue
+        v = n.ast.value
+        if v is None or (isinstance(v, ast.Constant) and v.value is None):
+            continue
+        n_ret += 1
+        e = v
+        if isinstance(v, ast.Name):
+            uv = rd.unique_value(v.id, n)
+            e = uv[0] if uv is not None else v
+        ns = _name_suffixes(e)
+        if ns is None or ns[0] != "stem":
+            bad.append((v, f"returns `{src(e)[:60]}`, which is not os.path.join(root, f\"{{stem}}<constant suffix>\")"))
+            continue
+        found |= ns[1]
+        guarded = any(pol and "isfile" in t and src(v) in t for t, pol in cfg.facts(n))
+        if not guarded:
+            bad.append((v, f"returns `{src(v)}` without an os.path.isfile test of that exact path"))
+    for x in walk_no_defs(fn.node):
+        if isinstance(x, ast.Call):
+            d = dotted(x.func) or ""
+            if d.endswith("listdir") or d.endswith("scandir") or d.endswith("glob") or (isinstance(x.func, ast.Attribute) and x.func.attr in ("iterdir", "startswith", "endswith", "glob", "rglob", "match", "fnmatch")):
+                bad.append((x, f"`{src(x)[:50]}`: resolves the stem by listing / pattern match instead of by exact name"))
+    if not bad:
+        ctx.floor("C07.STATE", "non-None returns of _find_snapshot_file", n_ret, 2)
+    ctx.check(not bad, "C07.STATE", f"{fn.qual}/exact-names", fn.loc(bad[0][0]) if bad else fn.loc(),
+              f"resolves a stem only to the exact names stem+{sorted(found)}, each tested with isfile",
+              (bad[0][1] if bad else "") + ": a sidecar (`.meta`) or leftover temp file next to a missing body is taken for the baseline and the delta is applied onto it")
+    # writer / locator table agreement
+    w = ctx.func(SNAP + ":write_snapshot_auto")
+    wrd = ctx.rd(w)
+    written: Set[str] = set()
+    for n, c in find_calls(ctx, w, lambda c, nm: nm.endswith(":_write_lines")):
+        e = rd_inline = wrd.inline(c.args[0], n, depth=1) if c.args else None
+        ns = _name_suffixes(e) if e is not None else None
+        if ns is None:
+            ctx.undecided("C07.STATE", f"{w.qual}/written-name@{n.lineno}", w.loc(c), f"written path not of the form join(dir, f-string + suffix): {src(e)[:60] if e is not None else ''}")
+            continue
+        for suf in ns[1]:
+            # ".full.json" / ".delta.json.zst" -> the part after the mode word
+            for mode in (".full", ".delta"):
+                if suf.startswith(mode):
+                    written.add(suf[len(mode):])
+    ctx.check(bool(written) and written == found, "C07.STATE", "locator/writer-suffix-agreement", fn.loc(),
+              f"locator suffixes {sorted(found)} == suffixes the writer produces {sorted(written)}",
+              f"the locator looks for {sorted(found)} but the writer produces {sorted(written)}: a written snapshot cannot be found (or a never-written name is accepted)")
+
+
 def run(ctx) -> None:
     rule_codec(ctx)
     rule_sect(ctx)
     rule_state(ctx)
+    rule_locator(ctx)
     rule_wfall(ctx)
